@@ -334,6 +334,9 @@ def rule_r2(ctx) -> List[R.Inst]:
 
 
 # --------------------------------------------------------------------------- R3
+fn_optional = {}
+
+
 def writer_slots(ctx, cq: str):
     """field -> (coord, ops, expr) and literal slots for ``write_string``."""
     M = ctx.M
@@ -341,7 +344,28 @@ def writer_slots(ctx, cq: str):
     rets = returns_of(fn.node)
     if len(rets) != 1:
         raise AnalysisError(f"{cq}.write_string: expected one return")
-    toks = C.fstring_tokens(rets[0].value)
+    rv = rets[0].value
+    optional_tail = None
+    if isinstance(rv, ast.Name):
+        # s = f"..." ; if <cond>: s += f",..." ; return s   — a trailing part written conditionally
+        parts, conds = [], []
+        for st in fn.node.body:
+            if isinstance(st, ast.Assign) and isinstance(st.targets[0], ast.Name) and st.targets[0].id == rv.id:
+                parts = [st.value]
+            elif isinstance(st, ast.If) and len(st.body) == 1 and not st.orelse and isinstance(st.body[0], ast.AugAssign) and \
+                    isinstance(st.body[0].op, ast.Add) and isinstance(st.body[0].target, ast.Name) and st.body[0].target.id == rv.id:
+                parts.append(st.body[0].value)
+                conds.append(st.test)
+            elif isinstance(st, ast.AugAssign) and isinstance(st.op, ast.Add) and isinstance(st.target, ast.Name) and st.target.id == rv.id:
+                parts.append(st.value)
+        if parts and all(isinstance(p_, (ast.JoinedStr, ast.Constant)) for p_ in parts):
+            vals = []
+            for p_ in parts:
+                vals.extend(p_.values if isinstance(p_, ast.JoinedStr) else [p_])
+            rv = ast.JoinedStr(values=vals)
+            ast.copy_location(rv, rets[0].value)
+            optional_tail = conds
+    toks = C.fstring_tokens(rv)
     res = _resolver(M, fn.mod, fn.cls)
     comma = C.split_tokens(toks, ",")
     n = len(comma)
@@ -383,6 +407,7 @@ def writer_slots(ctx, cq: str):
                 slots[coord] = ("tail", (C.self_attr(leaf.left), C.self_attr(leaf.right)), ops)
             else:
                 slots[coord] = ("field", C.self_attr(leaf), ops)
+    fn_optional[cq] = optional_tail
     return slots, n, toks, fn, rets[0]
 
 
@@ -503,6 +528,7 @@ def rule_r3(ctx) -> List[R.Inst]:
             elif v[0] == "?":
                 insts.append(R.undec("C01.R3", f"{name}.slot{coord}", file, wret.lineno, v[1]))
         declared = list(M.item_fields(cq))
+        writer_unread = any(v[0] == "?" for v in ws.values())
         for f in declared:
             key = f"{name}.{f}"
             r = rs.get(f)
@@ -536,6 +562,10 @@ def rule_r3(ctx) -> List[R.Inst]:
                                     construct=f"{name}.{f} absent"))
                 continue
             if w is None and r is not None and r[0] == "slot" and r[1] in wfields.get("<shifted>", []):
+                continue
+            if w is None and writer_unread:
+                # the writer's text could not be read slot by slot: no verdict about what it writes
+                insts.append(R.undec("C01.R3", key, file, wret.lineno, f"writer of '{f}' not recognised (the writer builds its text in an unmodelled way)"))
                 continue
             if r is None or w is None:
                 insts.append(R.viol("C01.R3", key, file, (dnode.lineno if w is None else wret.lineno),
@@ -593,6 +623,17 @@ def rule_r3(ctx) -> List[R.Inst]:
                     break
             if not guarded:
                 bad.append(sb)
+        wconds = fn_optional.get(cq)
+        if wconds:
+            # the writer omits the field under a condition: it must be exactly "the value is the format's default"
+            t = unparse(wconds[0]).replace(" ", "")
+            if t not in (f"self.{fld}!={dflt}", f"{dflt}!=self.{fld}"):
+                insts.append(R.viol("C01.R3", key + ":writer", file, wconds[0].lineno,
+                                    f"the writer leaves field {idx} ('{fld}') out unless '{unparse(wconds[0])}', but a reader supplies the "
+                                    f"format default {dflt} for an omitted field: values for which the test is false and that differ from "
+                                    f"{dflt} are lost", construct=f"{name}: {fld} omitted unless {unparse(wconds[0])}"))
+            else:
+                insts.append(R.ok("C01.R3", key + ":writer", file, wconds[0].lineno, idiom=f"omitted only when it equals the format default {dflt}"))
         if bad:
             insts.append(R.viol("C01.R3", key, file, bad[0].lineno,
                                 f"field {idx} ('{fld}') of a {name} line is optional in the format (default {dflt}); '{unparse(bad[0])}' is read "
